@@ -141,11 +141,11 @@ func (w *World) doStake(in Intent) {
 
 // MutationFields lists, per event type, the fields the property C14 names.
 var MutationFields = map[string][]string{
-	"TransferToChainEvent":      {"coin", "amount", "fee", "sender", "receiver", "dest_chain", "height", "tx_hash", "type", "shift_coin_amount", "shift_dec_first", "shift_dec_last", "shift_amount_fee"},
-	"SendToHubEvent":            {"coin", "amount", "sender", "receiver", "height", "tx_hash", "type", "shift_coin_amount", "shift_dec_first", "shift_dec_last"},
-	"BatchExecutedEvent":        {"coin", "batch_nonce", "height", "tx_hash", "fee_paid", "fee_payer", "type"},
-	"SignerSetTxExecutedEvent":  {"set_nonce", "height", "tx_hash", "member_addr", "member_power", "type"},
-	"ContractCallExecutedEvent": {"scope", "inval_nonce", "height", "tx_hash", "type"},
+	"TransferToChainEvent":      {"coin", "amount", "fee", "sender", "receiver", "dest_chain", "height", "height_hi", "tx_hash", "type", "shift_coin_amount", "shift_dec_first", "shift_dec_last", "shift_amount_fee"},
+	"SendToHubEvent":            {"coin", "amount", "sender", "receiver", "height", "height_hi", "tx_hash", "type", "shift_coin_amount", "shift_dec_first", "shift_dec_last"},
+	"BatchExecutedEvent":        {"coin", "batch_nonce", "batch_nonce_hi", "height", "height_hi", "tx_hash", "fee_paid", "fee_payer", "type"},
+	"SignerSetTxExecutedEvent":  {"set_nonce", "set_nonce_hi", "height", "height_hi", "tx_hash", "member_addr", "member_power", "member_power_hi", "type"},
+	"ContractCallExecutedEvent": {"scope", "inval_nonce", "inval_nonce_hi", "height", "height_hi", "tx_hash", "type"},
 }
 
 func flipHexChar(s string, pos int) string {
@@ -198,6 +198,8 @@ func (w *World) Mutate(chain string, ev mhub2types.ExternalEvent, mut string) mh
 			}
 		case "height":
 			c.ExternalHeight++
+		case "height_hi": // differs only above bit 32: a narrowing conversion anywhere in the identifier collides
+			c.ExternalHeight += 1 << 32
 		case "tx_hash":
 			c.TxHash = c.TxHash + "00"
 		case "type":
@@ -263,6 +265,8 @@ func (w *World) Mutate(chain string, ev mhub2types.ExternalEvent, mut string) mh
 			}
 		case "height":
 			c.ExternalHeight++
+		case "height_hi": // differs only above bit 32: a narrowing conversion anywhere in the identifier collides
+			c.ExternalHeight += 1 << 32
 		case "tx_hash":
 			c.TxHash = c.TxHash + "00"
 		case "type":
@@ -303,8 +307,12 @@ func (w *World) Mutate(chain string, ev mhub2types.ExternalEvent, mut string) mh
 			c.ExternalCoinId = otherCoin(c.ExternalCoinId)
 		case "batch_nonce":
 			c.BatchNonce++
+		case "batch_nonce_hi":
+			c.BatchNonce += 1 << 32
 		case "height":
 			c.ExternalHeight++
+		case "height_hi": // differs only above bit 32: a narrowing conversion anywhere in the identifier collides
+			c.ExternalHeight += 1 << 32
 		case "tx_hash":
 			c.TxHash = c.TxHash + "00"
 		case "fee_paid":
@@ -336,8 +344,12 @@ func (w *World) Mutate(chain string, ev mhub2types.ExternalEvent, mut string) mh
 		switch mut {
 		case "set_nonce":
 			c.SignerSetTxNonce++
+		case "set_nonce_hi":
+			c.SignerSetTxNonce += 1 << 32
 		case "height":
 			c.ExternalHeight++
+		case "height_hi": // differs only above bit 32: a narrowing conversion anywhere in the identifier collides
+			c.ExternalHeight += 1 << 32
 		case "tx_hash":
 			c.TxHash = c.TxHash + "00"
 		case "member_addr":
@@ -350,6 +362,11 @@ func (w *World) Mutate(chain string, ev mhub2types.ExternalEvent, mut string) mh
 				return nil
 			}
 			c.Members[0].Power++
+		case "member_power_hi": // the first member has the greatest power: adding 2^32 keeps the sort position
+			if len(c.Members) == 0 {
+				return nil
+			}
+			c.Members[0].Power += 1 << 32
 		default:
 			return nil
 		}
@@ -361,8 +378,12 @@ func (w *World) Mutate(chain string, ev mhub2types.ExternalEvent, mut string) mh
 			c.InvalidationScope = append(append([]byte(nil), c.InvalidationScope...), 1)
 		case "inval_nonce":
 			c.InvalidationNonce++
+		case "inval_nonce_hi":
+			c.InvalidationNonce += 1 << 32
 		case "height":
 			c.ExternalHeight++
+		case "height_hi": // differs only above bit 32: a narrowing conversion anywhere in the identifier collides
+			c.ExternalHeight += 1 << 32
 		case "tx_hash":
 			c.TxHash = c.TxHash + "00"
 		default:
